@@ -98,6 +98,30 @@ def check(world, tier):
             (isinstance(tv, tuple) and tv[0] == "t" and isinstance(tv[1], tuple) and tv[1][0] in ("join", "phi", "proj"))
         e_.ob(okto, "refusal-to-other-address in %s" % short(se.body), "ERROR %s is not addressed to the datagram's source" % code, se.loc)
     e_.need(len([1 for (se, snap) in L.sends() if L.error_code_of(snap)]), 4, "ERROR replies on the listener")
+    # ---------------------------------------------------------------- the policy looks at the file the transfer will touch
+    # the path whose existence decides (Path::exists / try_exists / is_file) is the same value as the path handed to the worker
+    pol = rep.clause("C06.path", "the existence test that decides the policy is made on the very path the worker opens")
+    spawns = [x for x in L.events if base_name(x) == "std::thread::spawn"]
+    tests = [x for x in L.events if not x.inlined and base_name(x) in ("std::path::Path::exists", "std::path::Path::try_exists", "std::path::Path::is_file")]
+    pol.need(len(set(x.node for x in spawns)), 2, "worker spawns on the listener")
+    pol.need(len(set(x.node for x in tests)), 2, "existence tests on the listener")
+    for sp in spawns:
+        env = sp.args[0][1] if isinstance(sp.args[0], tuple) and sp.args[0][0] == "agg" else {}
+        wpaths = [v for k, v in env.items() if isinstance(v, tuple) and v and v[0] == "t" and term_contains(v, is_app("std::path::Path::join"))]
+        mine = [x for x in tests if x.ctx[:2] == sp.ctx[:2]]
+        tested = []
+        for x in mine:
+            sn = arg_pointee(x, 0) or {}
+            tv = sn.get(())
+            if tv is not None:
+                tested.append(tv)
+            elif isinstance(x.args[0], tuple) and x.args[0][0] == "t":
+                tested.append(x.args[0])
+        same = bool(wpaths) and bool(tested) and all(any(tv == wp for tv in tested) for wp in wpaths)
+        pol.ob(same, "policy-tests-other-path in %s" % short(frame_fn(sp.ctx[:2])),
+               "the file whose existence decides whether the request is allowed is not the file the worker opens (e.g. the test is made on the name as sent, "
+               "the worker gets the converted name): an existing target can be overwritten without --overwrite / a missing one served", sp.loc,
+               sample={"handler": short(frame_fn(sp.ctx[:2])), "tested path == worker path": same})
     # ---------------------------------------------------------------- replace entirely
     Rv = region_for(world, eng, "::receive")
     if Rv is None:
